@@ -49,7 +49,7 @@ def qtok(j):
 class C02(Prop):
     id = "C02"
     anchored = ["src/pewlib/io/agilent.py"]
-    cases = {"quick": 800, "thorough": 30000}
+    cases = {"quick": 300, "thorough": 30000}
     rule = ("synthetic .b batches: 1..5 lines, 2..6 scans, 1..4 masses, MS / MS with XAddition / MS_MS, every subset of "
             "{BatchLog.xml, BatchLog.csv, AcqMethod.xml, MSTS_XAddition.xml}, data-file names of mixed digit widths and prefixes, "
             "shuffled directory listing, logs with Fail / repeated Pass / unlogged directories / logged-but-missing files, four path "
@@ -162,7 +162,7 @@ class C02(Prop):
                 c = rng.random()
                 pos = rng.randint(0, len(log))
                 if c < 0.4:  # a failed attempt of a line that is (re)acquired elsewhere in the log
-                    log.insert(pos, {"result": rng.choice(["Fail", "Fail", "Fail", "Abort", "-"]), "name": rng.choice(acquired)})
+                    log.insert(pos, {"result": rng.choice(["Fail", "Fail", "Abort", "-", "Skip"]), "name": rng.choice(acquired)})
                 elif c < 0.75:  # an earlier passed attempt of a line: only the last Pass entry counts
                     log.insert(pos, {"result": "Pass", "name": rng.choice(acquired)})
                 elif extra:  # a failed acquisition of a file that was never repeated
@@ -264,6 +264,8 @@ class C02(Prop):
         yield self.fixed_log_case()
         yield self.fixed_offset_case(1)
         yield self.fixed_offset_case(2)
+        yield self.other_result_case()
+        yield self.crossing_case()
         # every subset of the optional metadata files x smallest sizes (1 and 2 lines / masses, 2 scans), MS and MS/MS
         i = 0
         for has_xml, has_csv, has_acq, has_xadd in itertools.product([False, True], repeat=4):
@@ -303,6 +305,30 @@ class C02(Prop):
                 "xml": [{"result": r, "file": WIN + nm} for nm, r in log],
                 "csv": [{"id": i + 1, "file": WIN + nm, "result": r} for i, (nm, r) in enumerate(log)], "acq": None,
                 "files": files, "methods": ["batch_csv", "batch_xml"], "use_acq": False, "cps": True, "scan_start": 208, "seed": 1}
+
+    def other_result_case(self):
+        """a result text that is neither Pass nor Fail does not count as acquired"""
+        c = self.fixed_log_case()
+        log = [("1.d", "Pass"), ("2.d", "Abort"), ("3.d", "Pass"), ("2.d", "-")]
+        c["xml"] = [{"result": r, "file": "/data/x.b/" + nm} for nm, r in log]
+        c["csv"] = [{"id": i + 1, "file": "/data/x.b/" + nm, "result": r} for i, (nm, r) in enumerate(log)]
+        return c
+
+    def crossing_case(self):
+        """MS/MS where product order differs from precursor order; names from the method file in shuffled document order"""
+        k, R = 2, 2
+        accs = ["0.1", "0.25"]
+        # mass table in method order = ascending (product, precursor): Ca44->44, P31->63
+        table = [("Ca", 44, 44), ("P", 31, 63)]
+        f = self.plain_file("4.d", k, R, 500, True, accs)
+        f["csv"]["header"] = ["Time [Sec]"] + [f"{n}{pre} -> {pro}" for n, pre, pro in table]
+        return {"kind": "batch", "k": k, "R": R, "mode": "counts", "msms": True, "decimals": 2,
+                "xspecific": [{"name": n, "mass": i + 1, "acctime": accs[i]} for i, (n, _, _) in enumerate(table)],
+                "xadd": {"scan_type": "MS_MS", "rows": [{"index": 2, "precursor": 31, "product": 63}, {"index": 1, "precursor": 44, "product": 44}]},
+                "listing": [{"name": "Method", "dir": True}, {"name": "4.d", "dir": True}], "xml": None, "csv": None,
+                "acq": {"samples": [{"id": 0, "file": "4.d"}], "msms": True,
+                        "elements": [{"name": "P", "mz": 63, "selected": 31}, {"name": "Ca", "mz": 44, "selected": 44}]},
+                "files": [f], "methods": ["acq_method_xml"], "use_acq": True, "cps": True, "scan_start": 208, "seed": 3}
 
     def fixed_offset_case(self, k):
         """0904cc9: one line, k = 1 or 2 masses, three scans, instrument layout SpectrumOffset = 68 + r*28k"""
@@ -386,7 +412,7 @@ class C02(Prop):
         if res is None:
             return None
         if "raises" in res:
-            return {"raises": res["raises"]}
+            return {"raises": "any", "class": res["raises"]}
         return {"names": res["names"], "img": [[[conv(v) for v in col] for col in line] for line in res["img"]],
                 "times": [[qtok(t) for t in row] for row in res["times"]]}
 
@@ -397,7 +423,7 @@ class C02(Prop):
                 warnings.simplefilter("ignore")
                 data, params = call()
         except Exception as e:
-            return {"raises": type(e).__name__}, None
+            return {"raises": "any", "class": type(e).__name__}, None
         names = list(data.dtype.names)
         img = [[[tok(v) for v in data[n][line]] for n in names] for line in range(data.shape[0])]
         times = [[tok(v) for v in row] for row in params["times"]] if "times" in params else None
@@ -405,13 +431,11 @@ class C02(Prop):
 
     @staticmethod
     def same_image(a, b):
-        """canonical equality, an unspecific model error ('other') matches any exception"""
+        """canonical equality; the property does not name exception classes: raised matches raised"""
         if a is None or b is None:
             return a is None and b is None
         if "raises" in a or "raises" in b:
-            if "raises" in a and "raises" in b:
-                return a["raises"] == b["raises"] or "other" in (a["raises"], b["raises"])
-            return False
+            return "raises" in a and "raises" in b
         return core.canon(a) == core.canon(b)
 
     @staticmethod
@@ -455,9 +479,9 @@ class C02(Prop):
                         warnings.simplefilter("ignore")
                         dfs = agilent.collect_datafiles(b, list(ms))
                     bad = [str(d) for d in dfs if d.parent != b]
-                    coll[key] = {"raises": "path outside batch " + bad[0]} if bad else [d.name for d in dfs]
+                    coll[key] = {"bad": "path outside batch " + bad[0]} if bad else [d.name for d in dfs]
                 except Exception as e:
-                    coll[key] = {"raises": type(e).__name__}
+                    coll[key] = {"raises": "any"}
             impl["collect"] = coll
             impl["binary"], st["binary"] = self.impl_image(lambda: agilent.load_binary(b, list(methods), counts_per_second=False, full=True))
             if rational:
@@ -478,7 +502,7 @@ class C02(Prop):
         rep = ctx.driver.call("c02.import", **self.request(case))
         sides = {}
         for side in ("model", "spec"):
-            d = {"collect": rep["collect"][side],
+            d = {"collect": {k: ({"raises": "any"} if isinstance(v, dict) else v) for k, v in rep["collect"][side].items()},
                  "binary": self.canon_image(rep["binary"][side], int),
                  "cps": self.canon_image(rep["cps"][side], qtok),
                  "csv": self.canon_image(rep["csv"][side], qtok)}
@@ -591,7 +615,11 @@ class C02(Prop):
             feats.add("load:csv-fallback")
         if rep["acq_eq_log"] is True:
             feats.add("acq==log")
-        return feats
+        # descriptors alone (sizes >= 3, clean log, every order equal, all metadata) do not make a case non-trivial
+        boundary = {f for f in feats if f in ("lines1", "lines2", "k1", "k2", "scans2") or "!=" in f or f.startswith(("log:", "csv:", "load:", "method-"))
+                    or f in ("binary-unreadable", "binary-csv-agreement", "acq==log", "msms", "counts-per-second")
+                    or (f.startswith("meta:") and f != "meta:XCAD")}
+        return feats if boundary else set()
 
     # ------------------------------------------------------------------ shrinking
     def shrink(self, case):
